@@ -34,6 +34,10 @@ CHECKS = {
                      "monotone in between, independent of the previous state (no compounding); forwards reach every member with the unchanged factor (loop invariant over the member list); "
                      "the scheduled transform passes Sched((k // B) * W + r) and writes it to ctx; n_batches per budget kind",
                 note=TRUST + "; floats as reals (inf/nan magnitudes outside the model); DataLoader round-robin assignment assumed"),
+    "C18": dict(level="proof", technique="contract-based deductive verification of the layout state machine (ghost layout/origin, loop invariant over a symbolic member list, AST->SMT) + bounded padding collator",
+                text="_call_impl / KDComposeCollator.__call__ / KDSingleCollatorWrapper.__call__: default_collate at most once and exactly when a member asks, every member sees the layout its mode asks for, "
+                     "(batch, ctx) iff configured, ctx is the batch's own batched context; obligations on explicitly rejected member orders are excused; the padding collator is bounded only",
+                note=TRUST + "; torch default_collate (dict key set preserved, list->batch) assumed"),
 }
 PENDING = "check not built yet in this round (work in progress, see DESIGN.md Appendix B)"
 NOT_APPLICABLE = {f"C{i:02d}": PENDING for i in range(1, 21)}
